@@ -59,7 +59,9 @@ def location(t, env):
     return lvalue_location(("idx", t, ZERO), env)
 
 
-def interpret(effs, env, handler, limit=200000):
+def interpret(effs, env, handler, limit=200000, on_segment=None):
+    """on_segment(env) is called where the executor re-reads local variables that a loop modifies: at the start of every
+    iteration and after the loop (terms in between are expressed over the values at that point)."""
     count = [0]
 
     def cmp_(op, a, b):
@@ -81,6 +83,8 @@ def interpret(effs, env, handler, limit=200000):
                     first_ = False
                     e2 = dict(env)
                     e2[x["var"]] = i
+                    if on_segment:
+                        on_segment(e2)
                     try:
                         try:
                             go(x["body"], e2)
@@ -93,6 +97,8 @@ def interpret(effs, env, handler, limit=200000):
                             break
                         raise
                     i += st
+                if on_segment:
+                    on_segment(env)
             elif e == "while":
                 raise NotEvaluable("loop at line %s is not a counted loop" % x.get("l"))
             elif e == "if":
@@ -114,7 +120,7 @@ def interpret(effs, env, handler, limit=200000):
                 raise _Jump(e)
             elif e == "exit":
                 raise _Jump("exit")
-            elif e in ("store", "call", "alloc", "delete", "asm", "unknown"):
+            elif e in ("store", "call", "alloc", "delete", "asm", "unknown", "local"):
                 handler(e, x, env)
     try:
         go(effs, env)
@@ -234,3 +240,111 @@ def iterate(loops, env, limit=200000):
             yield from go(k + 1, e2)
             i += st
     yield from go(0, dict(env))
+
+
+# ---------------------------------------------------------------- polynomial abstract values
+# A value is a polynomial {sorted tuple of atoms: integer coefficient} over what the locations held on entry; enough for
+# sums of products (inner products, phases).  Local scalar variables live in PolyState: the executor expresses the terms
+# of a straight-line segment over the values the locals had at the segment's start, so reads go to a snapshot taken by
+# on_segment and writes to the live copy.
+def _pmul(a, b):
+    out = {}
+    for m1, c1 in a.items():
+        for m2, c2 in b.items():
+            m = tuple(sorted(m1 + m2, key=repr))
+            out[m] = out.get(m, 0) + c1 * c2
+            if out[m] == 0:
+                del out[m]
+    return out
+
+
+class PolyState(Memory):
+    def __init__(self):
+        Memory.__init__(self)
+        self.live, self.snap = {}, {}
+
+    def segment(self, env=None):
+        self.snap = dict(self.live)
+
+    def read(self, loc):
+        val = Memory.read(self, loc)
+        return val if isinstance(val, dict) else {(val,): 1}
+
+    def value(self, t, env):
+        """polynomial value of a term, None when it is not a polynomial in the entry values"""
+        k = t[0]
+        if k == "cast":
+            return self.value(t[2], env)
+        c = eval_term(t, env)
+        if c is not None:
+            return {(): c} if c else {}
+        if k == "var":
+            return self.snap[t] if t in self.snap else {(t,): 1}
+        if k in ("idx", "fld"):
+            return self.read(lvalue_location(t, env))
+        if k == "poly":
+            out = {}
+            for mono, coef in t[1]:
+                prod = {(): coef}
+                for a in mono:
+                    av = self.value(a, env)
+                    if av is None:
+                        return None
+                    prod = _pmul(prod, av)
+                out = lin_add(out, prod)
+            return out
+        if k == "cond":
+            c = eval_term(t[1], env)
+            return None if c is None else self.value(t[2] if c else t[3], env)
+        if k == "un" and t[1] == "-":
+            x = self.value(t[2], env)
+            return None if x is None else lin_add({}, x, -1)
+        if k == "op" and t[1] in ("+", "-"):
+            a, b = self.value(t[2], env), self.value(t[3], env)
+            return None if a is None or b is None else lin_add(a, b, 1 if t[1] == "+" else -1)
+        if k == "op" and t[1] == "*":
+            a, b = self.value(t[2], env), self.value(t[3], env)
+            return None if a is None or b is None else _pmul(a, b)
+        return None
+
+    def assign(self, x, env):
+        """a `local` or `store` effect (a local's effect carries its complete new value in "new", or in "val" for ++/--/decl)"""
+        if x["e"] == "local":
+            t = x["new"] if isinstance(x.get("new"), tuple) else x.get("val")
+            val = self.value(t, env) if isinstance(t, tuple) else None
+            if val is None:
+                raise NotEvaluable("value %s of %s at line %s" % (sym.show(t)[:100] if isinstance(t, tuple) else t, x["name"], x.get("l")))
+            self.live[("var", x["name"], x["id"])] = val
+            return
+        val = self.value(x["val"], env) if isinstance(x.get("val"), tuple) else None
+        if val is None:
+            raise NotEvaluable("value %s at line %s" % (sym.show(x["val"])[:100] if isinstance(x.get("val"), tuple) else x.get("val"), x.get("l")))
+        op = x.get("op") or "="
+        key = lvalue_location(x["lv"], env)
+        if op == "=":
+            new = val
+        elif op in ("+=", "-="):
+            new = lin_add(self.read(key), val, 1 if op == "+=" else -1)
+        elif op == "*=":
+            new = _pmul(self.read(key), val)
+        else:
+            raise NotEvaluable("operator %s at line %s" % (op, x.get("l")))
+        self.write(key, new)
+
+
+def show_atom(a):
+    if isinstance(a, tuple) and a and a[0] == "init":
+        r, path = a[1]
+        s = sym.show(r)
+        if len(path) > 1 and path[0] == 0 and isinstance(path[1], str):
+            s, path = s + "->" + path[1], path[2:]
+        for st in path:
+            s += "[%d]" % st if isinstance(st, int) else "." + str(st)
+        return s
+    return sym.show(a) if isinstance(a, tuple) and a and isinstance(a[0], str) else str(a)
+
+
+def show_poly(p, limit=4):
+    items = sorted(p.items(), key=repr)
+    txt = " ".join("%+d*%s" % (c, "*".join(show_atom(a) for a in m) or "1") for m, c in items[:limit])
+    return (txt or "0") + (" ..." if len(items) > limit else "")
